@@ -27,6 +27,7 @@ for f in sorted(glob.glob(os.path.join(VERIF, 'seeded', 'C*-*', 'meta.json'))):
     first = (m.get('earlier_evaluations') or [{}])[0].get('caught', {}).get(pid) if m.get('earlier_evaluations') else m.get('checks', {}).get(pid, {}).get('caught')
     earlier = m.get('earlier_evaluations') or []
     note = ''
+    if m.get('after_strengthening', {}).get('caught'): own = {'caught': True}; how = how or 'engine harness'
     if first is False and own.get('caught'):
         note = 'missed at first; caught after strengthening'
     if m.get('obsolete'):
